@@ -120,7 +120,8 @@ class WeakForms(_Simu):
         # Data
         weakForms = self.weakForms
         field = weakForms.field
-        thickness = 1.0 if self.mesh.inDim == 3 else weakForms.thickness
+        # a surface (or line) mesh carries the thickness wherever it lies in space, like Thermal and Elastic
+        thickness = 1.0 if self.mesh.dim == 3 else weakForms.thickness
 
         tic = Tic()
 
